@@ -205,10 +205,14 @@ fn parse_digits(v: &J) -> Digits {
 }
 
 fn parse_number(v: &J) -> Option<Number> {
-    let n = BigInt::from_str_radix(v.get("n")?.as_str()?, 10).ok()?;
-    let d = BigInt::from_str_radix(v.get("d")?.as_str()?, 10).ok()?;
+    let n = BigInt::from_str_radix(v.get("n").and_then(|x| x.as_str()).unwrap_or("0"), 10).ok()?;
+    let d = BigInt::from_str_radix(v.get("d").and_then(|x| x.as_str()).unwrap_or("1"), 10).ok()?;
     let value = if v.get("f").and_then(|x| x.as_bool()).unwrap_or(false) {
-        Numeric::Float(Numeric::Rational(BigRat::ratio(&n, &d)).to_f64())
+        // floats travel by their textual form so that -0.0 (and the exact bits) survive the round trip
+        match v.get("fv").and_then(|x| x.as_str()).and_then(|x| x.parse::<f64>().ok()) {
+            Some(f) => Numeric::Float(f),
+            None => Numeric::Float(Numeric::Rational(BigRat::ratio(&n, &d)).to_f64()),
+        }
     } else {
         Numeric::Rational(BigRat::ratio(&n, &d))
     };
